@@ -85,6 +85,66 @@ func c10Shape(d *rules.DNSRewrite) string {
 	return ""
 }
 
+// c10Echo returns "" if the accepted rewrite d carries the value that is written
+// in the long form "NOERROR;TYPE;value" (numbers read in base ten; nothing is
+// claimed for a number that is not written as plain decimal digits).
+func c10Echo(v string, d *rules.DNSRewrite) string {
+	parts := strings.SplitN(v, ";", 3)
+	if len(parts) != 3 || !strings.EqualFold(parts[0], "NOERROR") || d == nil || d.RCode != dns.RcodeSuccess {
+		return ""
+	}
+	val := parts[2]
+	num := func(s string) (uint16, bool) {
+		if s == "" || len(s) > 5 {
+			return 0, false
+		}
+		n := 0
+		for _, ch := range s {
+			if ch < '0' || ch > '9' {
+				return 0, false
+			}
+			n = n*10 + int(ch-'0')
+		}
+		return uint16(n), n <= 65535
+	}
+	fields := strings.Split(val, " ")
+	switch x := d.Value.(type) {
+	case netip.Addr:
+		if a, err := netip.ParseAddr(val); err != nil || a != x {
+			return fmt.Sprintf("address value %v for the written %q", x, val)
+		}
+	case string:
+		if d.RRType == dns.TypeTXT && x != val {
+			return fmt.Sprintf("TXT value %q for the written %q", x, val)
+		}
+		if d.RRType == dns.TypePTR && x != val && x != val+"." { // a missing final dot is added
+			return fmt.Sprintf("PTR value %q for the written %q", x, val)
+		}
+	case *rules.DNSMX:
+		if len(fields) == 2 {
+			if n, ok := num(fields[0]); ok && (x.Preference != n || x.Exchange != fields[1]) {
+				return fmt.Sprintf("MX value {%d %q} for the written %q", x.Preference, x.Exchange, val)
+			}
+		}
+	case *rules.DNSSRV:
+		if len(fields) == 4 {
+			a, ok1 := num(fields[0])
+			b, ok2 := num(fields[1])
+			p, ok3 := num(fields[2])
+			if ok1 && ok2 && ok3 && (x.Priority != a || x.Weight != b || x.Port != p || x.Target != fields[3]) {
+				return fmt.Sprintf("SRV value {%d %d %d %q} for the written %q", x.Priority, x.Weight, x.Port, x.Target, val)
+			}
+		}
+	case *rules.DNSSVCB:
+		if len(fields) >= 2 {
+			if n, ok := num(fields[0]); ok && (x.Priority != n || x.Target != fields[1]) {
+				return fmt.Sprintf("HTTPS/SVCB value {%d %q} for the written %q", x.Priority, x.Target, val)
+			}
+		}
+	}
+	return ""
+}
+
 // c10RefClass classifies a value text by the documented grammar: "error",
 // "empty", "rcode:N", "cname?" (a host name: accepted as a new CNAME or rejected),
 // "rr:T" (typed value, record type T; the value itself may still be rejected,
@@ -212,6 +272,9 @@ func c10Check(c *Ctx, v string) (accepted bool) {
 	if why := c10Shape(r1.DNSRewrite); why != "" {
 		c.Run.Violate(ev.Violation{Pred: "published-shape", Sig: map[string]any{"value": v}, What: fmt.Sprintf("%q accepted with rewrite %+v: %s", text, *r1.DNSRewrite, why), Replay: map[string]any{"value": v}})
 	}
+	if why := c10Echo(v, r1.DNSRewrite); why != "" {
+		c.Run.Violate(ev.Violation{Pred: "value-equals-written-value", Sig: map[string]any{"value": v}, What: fmt.Sprintf("%q accepted with %s", text, why), Replay: map[string]any{"value": v}})
+	}
 	if !reflect.DeepEqual(r1.DNSRewrite, r2.DNSRewrite) {
 		c.Run.Violate(ev.Violation{Pred: "deterministic", Sig: map[string]any{"value": v}, What: fmt.Sprintf("parsing %q twice gives %+v and %+v", text, *r1.DNSRewrite, *r2.DNSRewrite), Replay: map[string]any{"value": v}})
 	}
@@ -282,7 +345,7 @@ func init() {
 		// structured product: rcode ; rrtype ; value
 		rcodes := []string{"NOERROR", "noerror", "SERVFAIL", "NXDOMAIN", "REFUSED", "BADCODE", ""}
 		rrtypes := []string{"A", "AAAA", "CNAME", "MX", "PTR", "TXT", "HTTPS", "SVCB", "SRV", "NS", "none", "reserved", "XYZ", "", "a", "ptr", "https"}
-		vtoks := []string{"", "0", "10", "65535", "65536", "-1", "1.2.3.4", "::1", "::ffff:1.2.3.4", "example.org", "example.org.", ".", "a-", "-a", "alpn=h2", "k=v=w", "alpn=", "k=\"", "k=\"v\"", "hello world", strings.Repeat("x", 64), "example.org..", "a..", ".."}
+		vtoks := []string{"", "0", "10", "65535", "65536", "-1", "1.2.3.4", "::1", "::ffff:1.2.3.4", "example.org", "example.org.", ".", "a-", "-a", "alpn=h2", "k=v=w", "alpn=", "k=\"", "k=\"v\"", "010", "0x10", "caf\u00e9", "1.2.3.\uff14", "hello world", strings.Repeat("x", 64), "example.org..", "a..", ".."}
 		vn := 3
 		if c.Thorough() {
 			vn = 4
@@ -327,7 +390,7 @@ func init() {
 		// record-shaped layer: for the record types with a structured value, every
 		// value of 0..5 blank-separated fields over a small field alphabet (empty
 		// fields, i.e. leading, trailing and doubled blanks, included)
-		fields := []string{"", "0", "10", "example.org", "example.org.", "alpn=h2"}
+		fields := []string{"", "0", "10", "010", "example.org", "example.org.", "alpn=h2"}
 		var shaped []string
 		enum.SequencesUpTo(len(fields), 5, func(s []int) bool {
 			var parts []string
